@@ -267,6 +267,52 @@ def cli_faults(b, v, tier, seed):
     return n
 
 
+def atlas_faults(b, v, tier, seed):
+    """Atlas mode runs one stream per downloaded host log: a damaged download of any host must make the run fail, and every
+    <out>.<i> must stay a prefix (whole lines) of the fault-free redaction of host i's log."""
+    import atlasreplay as ar
+    t = ar.run_atlas_mc(3, ("digest",), ("none", "cut", "notgzip", "gzcut"), clis=(True,))
+    envs = {}
+    for r in t.records:
+        envs.setdefault(json.dumps([r["n"], r["fault"]], sort_keys=True), r)
+    pool = sl.Pool(seed)
+    root = tempfile.mkdtemp(prefix="c08atl-", dir=b.root)
+    work = [(r, var) for r in envs.values() if r["fault"]["kind"] != "none" for var in range(2 if tier == "quick" else 6)]
+
+    def one(args):
+        rec, var = args
+        c = ar.build_case(rec, pool, var + (seed - 1) * 19)
+        wd = tempfile.mkdtemp(prefix="w-", dir=root)
+        obs = ar.run_case(b, c, wd)
+        # fault-free output per host: the CLI on the intended (undamaged) log
+        ff = {}
+        for i, (h, _) in enumerate(c.names):
+            pth = os.path.join(wd, "ff%d.log" % i)
+            with open(pth, "wb") as f:
+                f.write(c.plain[h])
+            ff[i] = common.run_cli(b, ["redact", pth], cwd=wd).stdout
+        shutil.rmtree(wd, ignore_errors=True)
+        return rec, c, obs, ff
+    n = 0
+    for rec, c, obs, ff in common.parallel_map(one, work):
+        n += 1
+        v.count()
+        fk, fat = rec["fault"]["kind"], rec["fault"]["at"]
+        what = {"cut": "connection cut in the middle of the body", "notgzip": "payload is not a gzip stream", "gzcut": "downloaded archive is cut short"}[fk]
+        rep = {"fault": "%s, host %d of %d" % (what, fat, rec["n"]), "exit": obs["rc"], "stderr": obs["stderr"][:500].decode("utf-8", "replace"),
+               "outputs": {i: len(o) for i, o in obs["outs"].items()}}
+        if obs["rc"] == 0:
+            v.violation("an I/O failure in Atlas mode is not reported: exit 0 (%s, host %d of %d)" % (what, fat, rec["n"]), rep)
+            continue
+        for i, o in obs["outs"].items():
+            if i in ff and not ff[i].startswith(o):
+                v.violation("an Atlas output file is not a prefix of the fault-free redaction (%s)" % what, dict(rep, index=i))
+            elif o and not o.endswith(b"\n"):
+                v.violation("an Atlas output file ends in a partial line (%s)" % what, dict(rep, index=i))
+    shutil.rmtree(root, ignore_errors=True)
+    return n, t.distinct
+
+
 def run(tier):
     v = common.Verdict(PID, tier, "model_checking")
     b = common.build()
@@ -298,20 +344,21 @@ def run(tier):
         v.spec_drift({"trace": owners[ti], "rejected_at_event": ei, "event": ev, "init": traces[ti][0]})
     ngz = gzip_faults(b, v, tier, v.seed)
     ncli = cli_faults(b, v, tier, v.seed)
+    natl, atl_states = atlas_faults(b, v, tier, v.seed)
     faulted = sum(1 for _, r in recs if r["faulted"])
     v.cov.update({"states": t.distinct + tstates, "transitions": t.generated, "traces_validated_against_impl": acc, "traces_rejected": len(rej),
                   "exhaustive": True, "model_terminal_states_replayed": len(recs), "terminal_states_with_a_fault": faulted,
-                  "line_kinds": list(KINDS), "max_len": maxlen, "gzip_fault_runs": ngz, "cli_fault_runs": ncli,
+                  "line_kinds": list(KINDS), "max_len": maxlen, "gzip_fault_runs": ngz, "cli_fault_runs": ncli, "atlas_mode_fault_runs": natl,
                   "fault_kinds": ["k-th write fails", "k-th write is short", "read error in front of line i", "read error inside line i",
                                   "read error at the very end", "gzip cut at offset", "gzip byte flipped at offset", "read error inside the compressed stream",
-                                  "/dev/full on stdout", "--outputFile /dev/full", "closed pipe", "cut .gz file", "corrupt gzip CRC", "strace ENOSPC from write k"],
+                                  "/dev/full on stdout", "--outputFile /dev/full", "closed pipe", "cut .gz file", "corrupt gzip CRC", "strace ENOSPC from write k",
+                                  "Atlas mode: body cut / non-gzip payload / damaged archive at host k of n"],
                   "rule": "TLC: every sequence over the line kinds up to the bound x every write-fault position/kind x every read-fault position; each "
                           "terminal state replayed in-process with exact fault injection and judged: fault happened => failure reported; output is a byte "
                           "prefix of the fault-free output of the same input, ending on a line boundary unless the failing write itself was short; no fault "
                           "=> success and identical output. A flipped gzip byte may also pass when the output is complete (unprotected header fields).",
                   "trusted_base": ["TLC", "harness/inproc stream driver (fault-injecting reader/writer)", "strace fault injection", "lib/streamlib.py"]})
     v.assumptions.append("exact k-th syscall failure through the CLI is approximated by 'from the k-th write on' (strace counts per thread); exact k-th faults are in-process")
-    v.assumptions.append("Atlas-mode runs (one stream per downloaded host log) are covered by the C16/C17 machinery, which also injects damaged payloads")
     return v.finish()
 
 
